@@ -126,6 +126,17 @@ def directed_histories():
     return hs
 
 
+def corpus_histories():
+    hs = []
+    d = os.path.join(pv.ROOT, "corpus", "pool")
+    for f in sorted(os.listdir(d)) if os.path.isdir(d) else []:
+        for line in open(os.path.join(d, f)):
+            line = line.strip()
+            if line and not line.startswith("#"):
+                hs.append([o.strip() for o in line.split(";") if o.strip()])
+    return hs
+
+
 def assemble(hists):
     """Lines `H <base> ops` with base = number of pools created by the earlier lines."""
     lines, base = [], 0
@@ -401,8 +412,8 @@ def run(ctx):
     pv.correspondence(ctx, "pool-shifts", scases, impl, model, functional=False, oracle=shift_oracle,
                       nontrivial=lambda c, out: out.startswith("s ") and c != "S 0")
 
-    # histories
-    hists = directed_histories()
+    # histories: corpus of past failures first, then directed shapes, then random
+    hists = corpus_histories() + directed_histories()
     ndir = len(hists)
     tagc = {}
     nh = 2500 if quick else 60000
